@@ -146,12 +146,12 @@ Example ex_wf_agram : wf_agram KOriginal ex_ag.
 Proof. unfold wf_agram. repeat split; ag_tac. Qed.
 
 Example ex_roundtrip_true :
-  run_case true true KOriginal (print ex_lay ex_ag)
-  = Done (TResult (ast_of true ex_lay ex_ag) [] (warnings_of true ex_lay ex_ag)).
+  run_case true true true KOriginal (print ex_lay ex_ag)
+  = Done (TResult (ast_of true true ex_lay ex_ag) [] (warnings_of true true ex_lay ex_ag)).
 Proof. vm_compute. reflexivity. Qed.
 Example ex_roundtrip_false :
-  run_case true false KOriginal (print ex_lay ex_ag)
-  = Done (TResult (ast_of false ex_lay ex_ag) [] (warnings_of false ex_lay ex_ag)).
+  run_case true false true KOriginal (print ex_lay ex_ag)
+  = Done (TResult (ast_of false true ex_lay ex_ag) [] (warnings_of false true ex_lay ex_ag)).
 Proof. vm_compute. reflexivity. Qed.
 
 (* ======================================================================== *)
@@ -204,17 +204,17 @@ Example gx_wf_agram : wf_agram KGrmtools gx_ag.
 Proof. unfold wf_agram. repeat split; ag_tac. Qed.
 
 Example gx_roundtrip_true :
-  run_case true true KGrmtools (print gx_lay gx_ag)
-  = Done (TResult (ast_of true gx_lay gx_ag) [] (warnings_of true gx_lay gx_ag)).
+  run_case true true true KGrmtools (print gx_lay gx_ag)
+  = Done (TResult (ast_of true true gx_lay gx_ag) [] (warnings_of true true gx_lay gx_ag)).
 Proof. vm_compute. reflexivity. Qed.
 Example gx_roundtrip_false :
-  run_case true false KGrmtools (print gx_lay gx_ag)
-  = Done (TResult (ast_of false gx_lay gx_ag) [] (warnings_of false gx_lay gx_ag)).
+  run_case true false true KGrmtools (print gx_lay gx_ag)
+  = Done (TResult (ast_of false true gx_lay gx_ag) [] (warnings_of false true gx_lay gx_ag)).
 Proof. vm_compute. reflexivity. Qed.
 
 (* the action types arrive in the AST *)
 Example gx_types :
-  map (fun r => (r_name r, r_actiont r)) (a_rules (ast_of true gx_lay gx_ag))
+  map (fun r => (r_name r, r_actiont r)) (a_rules (ast_of true true gx_lay gx_ag))
   = [(s "Expr", Some (s "Result<u64, ()>")); (s "Term", Some (s "std::vec::Vec<u8>")); (s "Unused", Some (s "()"))].
 Proof. vm_compute. reflexivity. Qed.
 
@@ -264,12 +264,12 @@ Example eco_wf_agram : wf_agram KEco eco_ag.
 Proof. unfold wf_agram. repeat split; ag_tac. Qed.
 
 Example eco_roundtrip_true :
-  run_case true true KEco (print eco_lay eco_ag)
-  = Done (TResult (ast_of true eco_lay eco_ag) [] (warnings_of true eco_lay eco_ag)).
+  run_case true true true KEco (print eco_lay eco_ag)
+  = Done (TResult (ast_of true true eco_lay eco_ag) [] (warnings_of true true eco_lay eco_ag)).
 Proof. vm_compute. reflexivity. Qed.
 Example eco_roundtrip_false :
-  run_case true false KEco (print eco_lay eco_ag)
-  = Done (TResult (ast_of false eco_lay eco_ag) [] (warnings_of false eco_lay eco_ag)).
+  run_case true false true KEco (print eco_lay eco_ag)
+  = Done (TResult (ast_of false true eco_lay eco_ag) [] (warnings_of false true eco_lay eco_ag)).
 Proof. vm_compute. reflexivity. Qed.
 
 (* ======================================================================== *)
@@ -357,10 +357,10 @@ Proof. vm_compute. reflexivity. Qed.
 
 Definition rule_type_conflict_refuted_stmt : Prop :=
   exists l ag, wf_layout l ag /\ wf_agram_but_types KGrmtools ag /\
-    forall fa, exists r1 r2 A,
+    forall fa fp, exists r1 r2 A,
       In r1 (ag_rules ag) /\ In r2 (ag_rules ag) /\ ar_name r1 = ar_name r2 /\ ar_type r1 <> ar_type r2 /\
       (* accepted: no error; the warnings are those of the AST: none *)
-      run_case true fa KGrmtools (print l ag) = Done (TResult A [] (warnings A)) /\
+      run_case true fa fp KGrmtools (print l ag) = Done (TResult A [] (warnings A)) /\
       warnings A = Done [] /\
       (* the rule has the first block's type, not the second's *)
       (exists r, In r (a_rules A) /\ r_name r = ar_name r2 /\ r_actiont r = ar_type r1 /\ r_actiont r <> ar_type r2).
@@ -375,15 +375,15 @@ Proof.
     + cbn [tc_ag ag_rules wf_rules]. wf_tac.
     + exact I.
   - unfold wf_agram_but_types. repeat split; ag_tac.
-  - intros fa.
+  - intros fa fp.
     exists (mkARule (s "A") (Some (s "u32")) [mkAProd [ATok (s "a")] None None]),
            (mkARule (s "A") (Some (s "u64")) [mkAProd [ATok (s "b")] None None]),
-           (ast_of fa tc_lay tc_ag).
+           (ast_of fa fp tc_lay tc_ag).
     split; [left; reflexivity|]. split; [right; left; reflexivity|].
     split; [reflexivity|]. split; [vm_compute; discriminate|].
-    split; [destruct fa; vm_compute; reflexivity|]. split; [destruct fa; vm_compute; reflexivity|].
+    split; [destruct fa, fp; vm_compute; reflexivity|]. split; [destruct fa, fp; vm_compute; reflexivity|].
     exists (mkRule (s "A") (4, 5) [0; 1] (Some (s "u32"))).
-    split; [destruct fa; vm_compute; left; reflexivity|].
+    split; [destruct fa, fp; vm_compute; left; reflexivity|].
     split; [reflexivity|]. split; [reflexivity|]. vm_compute. discriminate.
 Qed.
 
@@ -405,9 +405,9 @@ Proof. vm_compute. reflexivity. Qed.
 
 Definition parse_param_twice_refuted_stmt : Prop :=
   forall k, exists l ag, wf_layout l ag /\ wf_agram_but_pp k ag /\
-    forall fa, exists n1 t1 n2 t2 A,
+    forall fa fp, exists n1 t1 n2 t2 A,
       ag_decls ag = [DParseParam n1 t1; DParseParam n2 t2] /\ (n1, t1) <> (n2, t2) /\
-      run_case true fa k (print l ag) = Done (TResult A [] (warnings A)) /\
+      run_case true fa fp k (print l ag) = Done (TResult A [] (warnings A)) /\
       warnings A = Done [] /\
       a_parse_param A = Some (n2, t2).
 
@@ -421,11 +421,11 @@ Proof.
     + destruct k; cbn [pp_ag ag_rules wf_rules]; wf_tac.
     + exact I.
   - unfold wf_agram_but_pp. destruct k; repeat split; ag_tac.
-  - intros fa. exists (s "a"), (s "u32"), (s "b"), (s "u64"), (ast_of fa pp_lay (pp_ag k)).
+  - intros fa fp. exists (s "a"), (s "u32"), (s "b"), (s "u64"), (ast_of fa fp pp_lay (pp_ag k)).
     split; [reflexivity|]. split; [vm_compute; discriminate|].
-    split; [destruct k, fa; vm_compute; reflexivity|].
-    split; [destruct k, fa; vm_compute; reflexivity|].
-    destruct k, fa; vm_compute; reflexivity.
+    split; [destruct k, fa, fp; vm_compute; reflexivity|].
+    split; [destruct k, fa, fp; vm_compute; reflexivity|].
+    destruct k, fa, fp; vm_compute; reflexivity.
 Qed.
 
 (* ======================================================================== *)
@@ -440,11 +440,11 @@ Definition vc_src2 : str := s "%parse-param p : u64 /* why */" ++ nl ++ s "%%" +
 Definition vc_src3 : str := s "%%" ++ nl ++ s "A -> u64 /* why */ : ;".
 
 Definition value_comment_refuted_stmt : Prop :=
-  (exists A, run_case true false KOriginal vc_src1 = Done (TResult A [] (Done [])) /\
+  (exists A, run_case true false true KOriginal vc_src1 = Done (TResult A [] (Done [])) /\
              map r_actiont (a_rules A) = [Some (s "u64 // the type")]) /\
-  (exists A, run_case true false KOriginal vc_src2 = Done (TResult A [] (Done [])) /\
+  (exists A, run_case true false true KOriginal vc_src2 = Done (TResult A [] (Done [])) /\
              a_parse_param A = Some (s "p", s "u64 /* why */")) /\
-  (exists A, run_case true false KGrmtools vc_src3 = Done (TResult A [] (Done [])) /\
+  (exists A, run_case true false true KGrmtools vc_src3 = Done (TResult A [] (Done [])) /\
              map r_actiont (a_rules A) = [Some (s "u64 /* why */")]).
 
 Lemma value_comment_refuted : value_comment_refuted_stmt.
